@@ -34,8 +34,8 @@ DEVS = [("CapSingle", "BootIgnoresSeed")]
 def cfg(tier):
     q = tier != "thorough"
     return ["SPECIFICATION Spec", "CONSTANTS", f" NBoots <- {'NBQ' if q else 'NBT'}", f" SeedSet <- {'SeedsQ' if q else 'SeedsT'}",
-            f" Structures <- {'StructQ' if q else 'StructT'}", " NamePairs <- NamesAll", " Flags <- FlAll",
-            "INVARIANT C20_Structure", "INVARIANT C20_SameSeedSameResample", "INVARIANT Emit", "CHECK_DEADLOCK FALSE"]
+            f" Structures <- {'StructQ' if q else 'StructT'}", " NamePairs <- NamesAll", " Flags <- FlAll", " Magnitudes <- MagAll",
+            "INVARIANT C20_Structure", "INVARIANT C20_SameSeedSameResample", "INVARIANT C20_UnitImmaterial", "INVARIANT Emit", "CHECK_DEADLOCK FALSE"]
 
 
 def make(structure, seed=0):
@@ -73,6 +73,9 @@ def evaluate(i, scn):
     ck = Checker()
     c, pred = scn["cfg"], scn["pred"]
     data, dim = make(c["structure"], common.seed())
+    if c.get("mag"):        # the same field in another physical unit
+        f_ = 10.0 ** int(c["mag"])
+        data = [d_ * f_ for d_ in data] if isinstance(data, list) else data * f_
     sn, fn = {"default": ("sample", "feature"), "sf": ("s", "f"), "s_only": ("smp", "feature"), "f_only": ("sample", "feat")}[c["names"]]
     fl = c["flags"]
     k = 3
@@ -94,7 +97,7 @@ def evaluate(i, scn):
                 return dict(found=ck.found, D=ck.D)
             out["idx"] = [list(map(int, e["idx"])) for e in _verif.events() if e["event"] == "boot_resample"]
             runs.append(out)
-    tag = f"{c['structure']} names={c['names']} flags={fl} n_bootstraps={nb} seed={seed}"
+    tag = f"{c['structure']} names={c['names']} flags={fl} n_bootstraps={nb} seed={seed}" + (f" unit=1e{c['mag']}" if c.get("mag") else "")
     A = np.asarray(m.data["input_data"].transpose(sn, fn).values)     # the model's own preprocessed samples
     n = A.shape[0]
     r0 = runs[0]
@@ -170,7 +173,7 @@ def evaluate(i, scn):
 
 
 def main():
-    a, rep, replay = parse(PROP)
+    a, rep, replay = parse(PROP, aged=True)
     rep.assumptions = ["the generator named by the implementation (numpy default_rng(seed).choice with replacement) defines 'the resample of a seed'",
                        "member numerics are recomputed with numpy SVD from the resample indices logged by hook H2"]
     if replay is not None and replay["scenario"].get("kind") == "lifecycle_path":
